@@ -26,6 +26,14 @@ func init() {
 		b, _ := Arg(t, "p", value)
 		n := func(f func()) string { return strconv.Itoa(int(testing.AllocsPerRun(10, f))) }
 		if kind == "slice" {
+			// grow the addressed slice to 150 elements (repeating its own elements): long loops must not allocate either
+			if sl, ok := NavNative(reflect.ValueOf(a), path); ok && sl.Kind() == reflect.Slice && sl.CanSet() && sl.Len() > 0 {
+				big := reflect.MakeSlice(sl.Type(), 150, 150)
+				for i := 0; i < 150; i++ {
+					big.Index(i).Set(sl.Index(i % sl.Len()))
+				}
+				sl.Set(big)
+			}
 			it := &countIter{}
 			buf := make([]byte, 0, 64)
 			return "loop=" + n(func() { _ = ins.Loop(a, it, &buf, path...) })
